@@ -42,6 +42,10 @@ def run_mutant(prop, patch, keep=False):
         if 'fact generation failed' in out_all:
             return name, False, 'mutant does not compile: ' + out_all[-600:]
         missing = [e for e in expects if not any(e in k for k in keys)]
+        if any(l.startswith('# expect-none') for l in lines):
+            # benign (behaviour-preserving) variant: the checks must stay silent
+            ok = rc_any == 0
+            return name, ok, 'benign variant: rc=%d keys=%s (%.0fs)' % (rc_any, keys[:6], time.time() - t0)
         ok = rc_any == 1 and not missing and bool(expects)
         return name, ok, 'rc=%d keys=%s missing=%s (%.0fs)' % (rc_any, keys[:6], missing, time.time() - t0)
     finally:
@@ -66,7 +70,7 @@ def main():
             if only and only not in patch:
                 continue
             name, ok, msg = run_mutant(p, patch, keep)
-            print('%s %s/%s  %s' % ('DETECTED' if ok else 'MISSED  ', p, name, msg), flush=True)
+            print('%s %s/%s  %s' % (('SILENT-OK' if 'benign' in msg else 'DETECTED') if ok else ('FALSE-ALARM' if 'benign' in msg else 'MISSED  '), p, name, msg), flush=True)
             bad += 0 if ok else 1
     return 1 if bad else 0
 
